@@ -273,17 +273,29 @@ fn scenario_candidates(sc: &Scenario, strat: &StratSpec) -> Vec<(Scenario, Strat
         c.faults.remove(i);
         out.push((c, strat.clone()));
     }
+    for i in 0..sc.lifecycle.len() {
+        let mut c = sc.clone();
+        c.lifecycle.remove(i);
+        out.push((c, strat.clone()));
+    }
+    if sc.from_pool.is_some() {
+        let mut c = sc.clone();
+        c.from_pool = None;
+        out.push((c, strat.clone()));
+    }
     if sc.fine_points {
         let mut c = sc.clone();
         c.fine_points = false;
         out.push((c, strat.clone()));
     }
-    if sc.pool.supplied.is_some() {
+    // liveness scenarios (rendezvous) are only meaningful with enough workers: never shrink the pool
+    let rdv = sc.faults.iter().any(|f| f.kind == crate::plan::FaultKind::Rendezvous);
+    if sc.pool.supplied.is_some() && !rdv {
         let mut c = sc.clone();
         c.pool.supplied = None;
         out.push((c, strat.clone()));
     }
-    if sc.pool.machine != 16 {
+    if sc.pool.machine < 16 {
         let mut c = sc.clone();
         c.pool.machine = 16;
         out.push((c, strat.clone()));
@@ -432,8 +444,8 @@ pub fn write_evidence(
             "simulated_time_scheduler_steps": st.steps,
             "context_switches": st.switches,
             "tasks_created": st.tasks,
-            "seed_sequence": {"base": base, "stride": jobs, "seeds_explored": st.seeds.len(),
-                               "first": st.seeds.iter().min(), "note": "seed_k = base + worker + k*stride (wrapping); base = mix(VERIF_SEED, fnv(property id))"},
+            "seed_sequence": {"base": base, "stride": jobs, "seeds_explored": st.seeds,
+                               "first": st.first_seed, "note": "seed_k = base + worker + k*stride (wrapping); base = mix(VERIF_SEED, fnv(property id))"},
             "distinct_layouts": st.layouts.len(),
             "distinct_interleavings": st.inters.len(),
             "overlapping_pairs_observed": st.overlap_pairs,
@@ -441,7 +453,8 @@ pub fn write_evidence(
             "strategies": st.strategies,
             "rare_branch_probes": st.probes,
             "violations_of_other_properties_seen": st.other_prop,
-            "known_finding_hits": st.kf_hits,
+            "violation_class_hits": st.class_hits,
+            "extra": st.extra,
             "violation_records_found": total_found,
             "components": components,
             "exhaustive": false,
